@@ -33,7 +33,7 @@ VARIABLES node,     \* [Node -> node state]
           act       \* the last scheduler action, for exporting counterexamples as replayable schedules (hidden by VIEW)
 
 vars == <<node, msgs, bud, hist, act>>
-View == <<node, msgs, bud, hist>>
+View == <<node, msgs, bud, [hist EXCEPT !.taint = {}, !.lcx = FALSE]>>   \* taint / lcx only label executions of the real code (RaftTrace)
 
 ReqMsg(r) == [k |-> "req", r |-> r]
 RespMsg(r, p) == [k |-> "resp", r |-> r, p |-> p]
